@@ -373,15 +373,24 @@ def r05_2_k(ctx, pv):
 def r05_3(ctx):
     R = ctx.rule('R05.3', 'heap order = reverse of (key, value); pop_if_equal tests ==, pop_if_le tests <=; difference drains with <=', floor=4)
     lib = ctx.lib
-    pc = lib.fn('<raw::ops::Slot as std::cmp::PartialOrd>::partial_cmp')
-    if pc is None:
-        ctx.missing(R, 'anchor:slot-order', 'Slot ordering not found')
-    else:
+    # both orderings the heap may consult (PartialOrd::partial_cmp and Ord::cmp) must be the REVERSE of (key, value); either may be
+    # written in terms of the other, with `reverse()` or with swapped operands
+    from absint import Prover
+    for tr, key in (('std::cmp::PartialOrd>::partial_cmp', 'slot-order'), ('std::cmp::Ord>::cmp', 'slot-cmp')):
+        pvs = Prover(lib)
+        pc = lib.fn('<raw::ops::Slot as ' + tr)
+        if pc is None:
+            ctx.missing(R, 'anchor:' + key, 'Slot ordering (%s) not found' % tr)
+            continue
         for p in explore(pc, max_visits=1):
             if p.end != 'return':
                 continue
-            rv = p.ret()
-            cmpc = [x for x in walk(rv) if x[0] == 'call' and isinstance(x[1], str) and x[1].rsplit('::', 1)[-1] in ('partial_cmp', 'cmp') and len(x[2]) == 2]
+            pvs._tmpl[pc.path] = None
+            rv = pvs.inline(p.ret())
+            cmpc = [x for x in walk(rv) if x[0] == 'call' and isinstance(x[1], str) and x[1].rsplit('::', 1)[-1] in ('partial_cmp', 'cmp') and len(x[2]) == 2
+                    and not x[1].startswith('<raw::ops::Slot as')]
+            # keep only the outermost comparison of the (key, value) pairs
+            cmpc = [x for x in cmpc if any(y[0] == 'field' and y[2] == 'input' for y in walk(x))][:1]
             rev = any((x[0] == 'cfn' and x[1].endswith('Ordering::reverse')) or is_call(x, 'Ordering::reverse') for x in walk(rv))
             for x in walk(rv):
                 if x[0] == 'closure' and x[1] in lib.fns:
@@ -403,14 +412,7 @@ def r05_3(ctx):
                 natural = pa == {1} and pb == {2}
                 swapped = pa == {2} and pb == {1}
                 ok = key_first and ((natural and rev) or (swapped and not rev))
-            ctx.check(R, ok, 'slot-order', 'the heap must order slots by the REVERSE of (key, value) so that the smallest key is on top: %s' % why, fn=pc)
-        c = lib.fn('<raw::ops::Slot as std::cmp::Ord>::cmp')
-        if c is not None:
-            for p in explore(c, max_visits=1):
-                if p.end == 'return':
-                    rv = p.ret()
-                    ok = any(is_call(x, 'partial_cmp') and x[2][0][0] == 'param' and x[2][0][2] == 1 and x[2][1][0] == 'param' and x[2][1][2] == 2 for x in walk(rv))
-                    ctx.check(R, ok, 'slot-cmp', 'Ord::cmp of a slot must be its partial_cmp(self, other)', fn=c)
+            ctx.check(R, ok, key, 'the heap must order slots by the REVERSE of (key, value) so that the smallest key is on top: %s' % why, fn=pc)
     # conditional pops
     for helper, want in (('pop_if_equal', 'eq'), ('pop_if_le', 'le')):
         f = lib.fn(HEAP + '::' + helper)
@@ -554,14 +556,25 @@ def r05_6(ctx):
             for g in fs:
                 cs = [g.callee(t) for _, t in g.calls() if (g.callee(t) or '').startswith('<raw::ops::')]
                 ctx.check(R, len(cs) == 1 and ('::' + ty + '<') in cs[0], 'stream:%s::%s' % (mod, ty), 'wrapper stream %s must pull from the raw %s (found %s)' % (ty, ty, cs), fn=g)
-    z = [g for g in lib.fn_list if g.path.endswith('::next::{closure#0}') and 'StreamZeroOutput' in g.path]
-    ok = False
-    for g in z:
-        for p in explore(g, max_visits=1):
-            if p.end == 'return':
-                rv = p.ret()
-                ok = rv[0] == 'tuple' and len(rv[1]) == 2 and is_call(rv[1][1], 'Output::zero') and rv[1][0][0] == 'param'
-    ctx.check(R, ok, 'zero-outputs', 'the set wrapper must pair every key with a zero output', fn=z[0] if z else None)
+    # the adaptor that turns a key stream into a (key, output) stream for the raw set operations: every item it yields must be
+    # (the inner key, Output::zero()) - whether written with Option::map and a closure or with `?` and a tuple
+    import vsplit
+    z = [g for g in lib.fn_list if g.impl and g.impl.get('trait_path') == 'stream::Streamer' and g.path.endswith('::next') and 'StreamZeroOutput' in g.impl['self_ty']]
+    if not z:
+        ctx.missing(R, 'anchor:zero-output-adaptor', 'the set wrapper\'s key -> (key, zero output) stream adaptor was not found')
+    else:
+        somes = []
+        for vp in vsplit.vpaths(lib, z[0], enter=False):
+            rv = vp.ret()
+            if rv[0] == 'agg' and rv[1].endswith('Option::Some'):
+                t = rv[2][0][1]
+                somes.append(t[0] == 'tuple' and len(t[1]) == 2 and is_call(t[1][1], 'Output::zero') and any(is_call(x, '::next') for x in walk(t[1][0])))
+            elif not (rv[0] == 'agg' and rv[1].endswith('Option::None')) and not is_call(rv, '::from_residual'):
+                somes.append(None)
+        if somes and all(x is not None for x in somes):
+            ctx.check(R, all(somes), 'zero-outputs', 'the set wrapper must pair every key with a zero output', fn=z[0])
+        else:
+            ctx.undecided(R, 'zero-outputs', 'the items yielded by the set wrapper\'s stream adaptor could not be reconstructed', fn=z[0])
 
 
 def run(ctx):
@@ -572,6 +585,14 @@ def run(ctx):
     ctx.rule('R05.4', 'outs discipline: cleared once per candidate key, one (index, value) entry per popped slot taken from that slot', floor=8)
     rf = ctx.step(r05_2_k, ctx, pv)
     summaries = {}
+    # the slot bookkeeping rules classify slots by the primitive that produced them; when those primitives were redesigned (merged
+    # behind a mode parameter, renamed beyond the alias pass) nothing about slots can be decided
+    prim_missing = [q for q in TAKERS + (HEAP + '::refill',) if lib.fn(q) is None]
+    if prim_missing:
+        ctx.missing('R05.1', 'anchor:heap-primitives', 'heap primitives not found: %s' % [q.rsplit('::', 1)[-1] for q in prim_missing])
+        ctx.step(r05_5, ctx)
+        ctx.step(r05_6, ctx)
+        return
     for name, path in OPS.items():
         f = lib.fn(path)
         if f is None:
